@@ -130,7 +130,7 @@ def run_c05(tier):
     samples = []
     plan = [("maniaconv", 2 if tier == "quick" else 3, "FALSE" if tier == "quick" else "TRUE", "release"),
             ("adversarial", 1 if tier == "quick" else 2, "FALSE", "release"),
-            ("realistic", 1 if tier == "quick" else 2, "FALSE" if tier == "quick" else "TRUE", "release"),
+            ("realistic", 1 if tier == "quick" else 2, "FALSE", "release"),        # (2, rich) would be 10 million maps
             ("realistic", 1 if tier == "quick" else 2, "FALSE", "dev")]
     for domain, maxobjs, rich, profile in plan:
         scen, n = enumerate_corners(res, domain, maxobjs, rich, tier, "C05")
@@ -197,7 +197,7 @@ def run_c09(tier):
     evaluations = 0
     distinct = 0
     samples = []
-    plan = [("degenerate", 2 if tier == "quick" else 3, "FALSE"), ("realistic", 1 if tier == "quick" else 2, "FALSE" if tier == "quick" else "TRUE")]
+    plan = [("degenerate", 2 if tier == "quick" else 3, "FALSE"), ("realistic", 1 if tier == "quick" else 2, "FALSE")]
     for domain, maxobjs, rich in plan:
         scen, n = enumerate_corners(res, domain, maxobjs, rich, tier, "C09")
         binp = common.build_harness("", "release")
